@@ -142,7 +142,8 @@ def writer_events(w):
         if i == 0 and c["op"] == "apply":
             continue          # NewWriter + Apply(options): before the first write, no sink access
         ev.append({"ev": "wcall", "case": w["case"], "op": c["op"], "n": c["n"], "ret": c["ret"], "err": c["err"],
-                   "dcalls": dcalls, "dsink": dsink, "dec": c["dec"], "decsame": c["decsame"]})
+                   "dcalls": dcalls, "dsink": dsink, "dec": c["dec"], "decsame": c["decsame"],
+                   "st": (c.get("st") or "").replace("State", "")})
     for k, f in enumerate(w["frames"]):
         ev.append({"ev": "wend", "case": w["case"], "seg": k + 1, "status": f["status"], "same": f["same"],
                    "blocks": [b["dec"] for b in f["blocks"]], "contentLen": f["contentLen"], "consumed": f["consumed"],
@@ -194,7 +195,7 @@ def reader_events(r, total, linked=False):
            "declared": r.get("declared", [0, 0, 0, 0])}]
     if "log" in r:
         for c in r["log"]:
-            ev.append(dict(c, ev="rcall", case=r["case"]))
+            ev.append(dict(c, ev="rcall", case=r["case"], st=(c.get("st") or "").replace("State", "")))
     else:
         ev.append({"ev": "rall", "case": r["case"], "n": r["deliveredLen"], "err": "eof" if r["outcome"] == "clean" else r["err"]})
     ev.append({"ev": "rend", "case": r["case"], "same": r.get("sameAsInput", False),
